@@ -164,6 +164,14 @@ impl ModuleLoader {
     pub fn clear_cache(&mut self) {
         self.chunks.clear();
     }
+
+    /// Removes a module from the compiled module cache
+    ///
+    /// This is used when importing the module has failed, so that the module's file is read again
+    /// the next time that the module is imported.
+    pub fn remove_from_cache(&mut self, module_path: &Path) {
+        self.chunks.remove(module_path);
+    }
 }
 
 /// Returned from [ModuleLoader::compile_module]
